@@ -4,6 +4,7 @@ import Proofs.MessageHdr
 import Proofs.MessageCounts
 import Proofs.MessageCompress
 import Proofs.ParseMessageOpt
+import Proofs.ParseTsig
 import Proofs.ParseUpdate
 /-!
 # C03 — messages survive render-then-parse unchanged; compression is sound
@@ -103,9 +104,10 @@ example : ({ id := 1, flags := 32768, q := [{ name := [[119,119,119],[101,120],[
 opcode, rcode … and the same records in every section (equal to the original whenever it uses absolute names)".
 Full statement: for every well-formed message `m` (any opcode incl. UPDATE, with OPT/TSIG, with or without
 origin), `parseMessage cfg (m.toWire lim false) = .ok m'` with `m'` equal to `m` as the library compares messages.
-Proved here (`MsgOkE`) for: absolute names (no origin), no TSIG record, no padding request, opcode other than
-UPDATE; with or without the EDNS OPT record (any version/flags/extended-rcode bits in its ttl, any payload, any
-option list); arbitrary id/flags (hence opcode and header rcode), any number of questions and of record sets per section, any
+Proved here (`MsgOkT`) for: absolute names (no origin), no padding request, opcode other than UPDATE; with or
+without the EDNS OPT record (any version/flags/extended-rcode bits in its ttl, any payload, any option list); with
+or without a TSIG record (any key name — compressible or not —, algorithm name, time, fudge, MAC octets, original
+id, error, other data; a key being available to the parser, MAC validation itself abstract); arbitrary id/flags (hence opcode and header rcode), any number of questions and of record sets per section, any
 mix of opaque, NS/CNAME/PTR-, MX- and SOA-shaped RDATA, any owner-name sharing pattern — every name may be
 compressed against any earlier one, at any offset.  The result is the original message up to the ASCII case of
 names (`Message.sim`: the parser returns a compressed name in the case of the occurrence it was compressed
@@ -114,16 +116,17 @@ original order with their rdatas in the original order, the parser consuming exa
 `TrailingJunk`), with `one_rr_per_rrset=False` and any `ignore_trailing`.
 The EDNS state (`Message.opt`: version, flags, extended rcode, payload, options) comes back identical, hence so
 do `rcode()`, `edns`, `ednsflags`, `payload`, `options`.
-What is missing for the full statement: the TSIG record, the padding option, update messages (`update_forms`:
-delete-rrset / delete-rr / prerequisite forms through the ANY/NONE classes) and relativisation against an origin
+The TSIG record comes back with its owner up to ASCII case and every other field identical.
+What is missing for the full statement: the padding option (`pad ≠ 0` adds a PADDING option to the parsed OPT),
+update messages carrying OPT/TSIG (`update_forms` covers updates without them) and relativisation against an origin
 are covered by the correspondence check and the direct oracle only; so is `render_parse_render` (re-rendering
 the parsed message reproduces the bytes), which follows from this theorem only where the parsed message is
 identical to the original (no case-variant repeats). -/
-theorem parse_render_partial (m : Message) (lim : Nat) (w : Bytes) (hok : MsgOkE m) (h : m.toWire lim false = .ok w)
-    (cfg : PCfg) (horg : cfg.origin = none) (hnorr : cfg.oneRRPerRRset = false) :
-    ∃ m', parseMessage cfg w = .ok m' ∧ m'.sim m ∧ m'.id = m.id ∧ m'.flags = m.flags ∧ m'.opcode = m.opcode ∧
+theorem parse_render_partial (m : Message) (lim : Nat) (w : Bytes) (hok : MsgOkT m) (h : m.toWire lim false = .ok w)
+    (cfg : PCfg) (horg : cfg.origin = none) (hnorr : cfg.oneRRPerRRset = false) (hkey : cfg.hasKey = true) :
+    ∃ m', parseMessage cfg w = .ok m' ∧ m'.simT m ∧ m'.id = m.id ∧ m'.flags = m.flags ∧ m'.opcode = m.opcode ∧
       m'.opt = m.opt ∧ m'.rcode = m.rcode ∧ m'.edns = m.edns := by
-  obtain ⟨m', hp, hs⟩ := parse_toWire_opt m lim w hok h cfg horg hnorr
+  obtain ⟨m', hp, hs⟩ := parse_toWire_full m lim w hok h cfg horg hnorr hkey
   have ho : m'.opt = m.opt := hs.2.2.2.2.2.2.1
   refine ⟨m', hp, hs, hs.1, hs.2.1, ?_, ho, ?_, ?_⟩
   · simp [Message.opcode, hs.2.1]
@@ -132,15 +135,18 @@ theorem parse_render_partial (m : Message) (lim : Nat) (w : Bytes) (hok : MsgOkE
 
 /-- non-vacuity of `parse_render_partial`: a response with a question, an NS record set of two records whose
 owner repeats the question name in another case and whose targets share its suffix, and an opaque A record set -/
-example : MsgOkE { id := 7, flags := 33152, opt := some { ttl := 16809984, payload := 1232, options := [(10, [1,2,3,4,5,6,7,8])] }, q := [{ name := [[119,119,119],[101,120],[]], rdclass := 1, rdtype := 2 }], an := [{ name := [[87,87,87],[69,88],[]], rdclass := 1, rdtype := 2, ttl := 5, rdatas := [.name1 [[110,115],[101,120],[]], .name1 [[110,116],[101,120],[]]] }], ad := [{ name := [[110,115],[101,120],[]], rdclass := 1, rdtype := 1, ttl := 5, rdatas := [.raw [192,0,2,1]] }] } := by
+example : MsgOkT { id := 7, flags := 33152, opt := some { ttl := 16809984, payload := 1232, options := [(10, [1,2,3,4,5,6,7,8])] }, tsig := some { name := [[107],[101,120],[]], alg := [[104,109,97,99],[]], time := 1700000000, fudge := 300, mac := [1,2,3,4], origId := 7, error := 0, other := [] }, q := [{ name := [[119,119,119],[101,120],[]], rdclass := 1, rdtype := 2 }], an := [{ name := [[87,87,87],[69,88],[]], rdclass := 1, rdtype := 2, ttl := 5, rdatas := [.name1 [[110,115],[101,120],[]], .name1 [[110,116],[101,120],[]]] }], ad := [{ name := [[110,115],[101,120],[]], rdclass := 1, rdtype := 1, ttl := 5, rdatas := [.raw [192,0,2,1]] }] } := by
   have wf : ∀ n : Name, n ∈ [[[119,119,119],[101,120],[]], [[87,87,87],[69,88],[]], [[110,115],[101,120],[]], [[110,116],[101,120],[]]] → NameOk none n := by
     intro n hn
     simp at hn
     rcases hn with rfl | rfl | rfl | rfl <;> exact ⟨_, rfl, by refine ⟨?_, ?_, ?_⟩ <;> decide, rfl⟩
-  refine ⟨rfl, by decide, by decide, by decide, ?_, rfl, rfl, ?_, ?_, ?_, ?_, ?_, ?_, ?_, by decide⟩
+  refine ⟨rfl, by decide, by decide, by decide, ?_, rfl, ?_, ?_, ?_, ?_, ?_, ?_, ?_, ?_, by decide⟩
   · intro o ho; simp at ho; subst ho
     refine ⟨by decide, by decide, ?_, by decide, trivial⟩
     intro p hp; simp at hp; subst hp; exact ⟨by decide, by decide⟩
+  · intro t ht; simp at ht; subst ht
+    exact ⟨⟨_, rfl, by refine ⟨?_, ?_, ?_⟩ <;> decide, rfl⟩, by refine ⟨?_, ?_, ?_⟩ <;> decide, rfl, by decide, by decide,
+      by decide, by decide, by decide, by decide, by decide⟩
   · intro r hr; simp at hr; subst hr
     exact ⟨wf _ (by simp), by decide, by decide, rfl, rfl, rfl, rfl⟩
   · intro r hr; simp at hr; subst hr
